@@ -217,7 +217,9 @@ def stepFw (pid : String) (d : DrvSt) (op : String) (got : String) : StepResult 
     let want := if Spec.scopeLocal kind addr then "L" else "N"
     if got == "err" then { st := d, cov := ["scope-err"] }
     else { st := d, expected := some want, cov := ["scope-" ++ want],
-           spec := (if got != want then
+           spec := ((if got != "L" && got != "N" then
+             [(⟨"C09-scope-not-binary", kind, s!"the {kind} transport for remote address {addr} has a scope that is neither Local nor NonLocal ({got})"⟩ : SpecFail)]
+             else []) ++ if got != want then
              [(⟨"C09-scope-classification", kind, s!"the {kind} transport for remote address {addr} has scope {got}, the specification says {want}"⟩ : SpecFail)]
              else []).filter (keepClause pid) }
   | _ =>
@@ -229,7 +231,10 @@ def stepFw (pid : String) (d : DrvSt) (op : String) (got : String) : StepResult 
       -- "tcp4:ADDR" / "tcp6:ADDR": the scope is the one the specification assigns to that remote address
       let isLocal := if sc.startsWith "tcp" then Spec.scopeLocal ((sc.take 4).toString) ((sc.drop 5).toString) else sc == "L"
       let f : Face := ⟨id, isLocal, lt⟩
-      cfgAll (.addFace f)
+      { cfgAll (.addFace f) with
+        spec := (if got.startsWith "scope=" then
+          [(⟨"C09-scope-not-binary", "face", s!"face {id} ({sc}) was given a scope that is neither Local nor NonLocal ({got}): every `== NonLocal` guard of the pipeline lets it pass as a local face"⟩ : SpecFail)]
+          else []).filter (keepClause pid) }
     | _, _ => bad
   | ["dynface", id, sc, lt] =>
     -- a face whose id comes from the real face table; the protocol names it by its slot number
